@@ -36,7 +36,7 @@ func main() {
 		Assume: []string{
 			"statement-atomic interleaving: preemption happens only at the inserted yields; hardware-level tearing and compiler reordering are covered by the race detector's happens-before analysis, not by the value oracle",
 			"the race detector keeps the last few accesses per 8-byte word; runs are kept small so that a conflicting access is not evicted before its partner arrives",
-			"channels / select / cgo introduced by an edit are not schedulable by simrt (the run then trips the watchdog: exit 2)",
+			"channel operations, range over channels, select and sync.Cond introduced by an edit are modelled by simrt; selects that wait on runtime-fed channels (timers, contexts) and cgo are not (the run then trips the watchdog: exit 2)",
 		},
 		PerRunTimeout: 60 * time.Second,
 		WorkerEnv:     []string{"GORACE=halt_on_error=0 exitcode=0 atexit_sleep_ms=0 suppress_equal_stacks=0 suppress_equal_addresses=0 history_size=7 log_path=" + dir + "/race"},
